@@ -493,6 +493,11 @@ def check_depth(ctx, crate, r_cycle, r_bal):
         state[path] = "done"
         if any(d != 0 for (_v, d, _g) in rets):
             summaries[path] = sorted(rets, key=repr)
+        elif rets and len({v for (v, _d, _g) in rets}) == 1 and next(iter(rets))[0] is not None \
+                and f.local_ty(0).startswith(("std::result::Result", "std::option::Option")):
+            # a helper that always answers with the same variant (`fn peek_fail<T>(..) -> Result<T>`, always Err) and
+            # leaves the counter alone: its callers' paths are told which variant they hold
+            summaries[path] = sorted(rets, key=repr)
 
     for f in crate.fns:
         if f.path not in in_scc and (f.file.endswith("parse/mod.rs") or f.file.endswith("parse/read.rs")):
@@ -578,9 +583,11 @@ def check_depth(ctx, crate, r_cycle, r_bal):
     touched = 0
     for fn in crate.fns:
         st, out_state, eff = delta_dataflow(fn, summaries, resolve)
-        calls_helper = any(resolve(t) in summaries for _bi, t in fn.calls())
+        calls_helper = any(resolve(t) in summaries and any(d != 0 for (_v, d, _g) in summaries[resolve(t)]) for _bi, t in fn.calls())
         if not eff and not calls_helper:
             continue
+        if fn.path in summaries and not any(d != 0 for (_v, d, _g) in summaries[fn.path]):
+            continue        # only tells its callers a result variant; it does not touch the counter
         if fn.path in summaries:
             # a helper that hands a changed counter to its caller: legitimate only as a private building block whose
             # callers are all analysed with its summary (they are: every local caller is)
